@@ -374,6 +374,16 @@ class World:
         real = getattr(importlib.import_module(modname), qual)
         return ClsObj(self, real)
 
+    def new(self, ref, *a, **k):
+        """stand-in instance initialised by the class's real (shadowed) __init__"""
+        modname, qual = ref.split(":")
+        o = self.obj(ref)
+        hit = _class_lookup(self, object.__getattribute__(o, "__dict__")["_pv_real"], "__init__")
+        if hit is None:
+            raise sym.EngineLimit(f"{ref}.__init__ not found in source")
+        hit[1](o, *a, **k)
+        return o
+
 
 class ShadowModule:
     def __init__(self, world, modname):
@@ -390,12 +400,22 @@ class ShadowModule:
         for k, v in list(ns.items()):
             if v is np:
                 ns[k] = world.np
+            elif v is np.linalg:
+                ns[k] = world.np.linalg
+            elif v is np.linalg.norm:
+                ns[k] = world.np.linalg.norm
+            elif v is np.linalg.inv:
+                ns[k] = world.np.linalg.inv
             else:
                 try:
                     if v in snp.NUMPY_FUNCS:
                         ns[k] = snp.NUMPY_FUNCS[v]
+                        continue
                 except TypeError:
                     pass
+                nm = getattr(v, "__name__", None)
+                if nm and not k.startswith("__") and getattr(np, nm, None) is v and nm in snp.NP.__dict__:
+                    ns[k] = getattr(world.np, nm)
         self._lazy_done = False
 
     def _finish(self):
